@@ -80,7 +80,7 @@ fn expected_plain(engine: &[u8; 5], user: &[u8; 2], boots: i64, time: i64, msg_i
     (msg, mac_off)
 }
 
-//@ C09,C13,C03 thorough timeout=3600 | v3 authNoPriv (HMAC-MD5 transcript), localized key (any 16 octets), engine id (any 5 octets) given at construction, user "ab", boots/time adopted from an accepted Report (2-octet and 4-octet values): push_pdu(Get 1.3.6.1) == reference message with flags=auth, USM engine/boots/time/user as the session holds them, 12-octet msgAuthenticationParameters == first 12 octets of the outer digest, inner digest fed with the whole message with that field ZEROED, keyed with the localized key
+//@ C09,C13,C03 thorough timeout=5400 optional | v3 authNoPriv (HMAC-MD5 transcript), localized key (any 16 octets), engine id (any 5 octets) given at construction, user "ab", boots/time adopted from an accepted Report (2-octet and 4-octet values): push_pdu(Get 1.3.6.1) == reference message with flags=auth, USM engine/boots/time/user as the session holds them, 12-octet msgAuthenticationParameters == first 12 octets of the outer digest, inner digest fed with the whole message with that field ZEROED, keyed with the localized key
 #[kani::proof]
 #[kani::unwind(10)]
 #[kani::stub(alloc::fmt::format, stub_format)]
@@ -163,3 +163,151 @@ fn v3_auth_wire_md5() {
     core::mem::forget(s);
     core::mem::forget(buf);
 }
+
+// ------------------------------------------------------------------------------------
+// push_pdu's own decisions, with the v3 message serialiser cut out (S11): `SnmpV3Message::push_ber` is replaced by a
+// recorder that notes every field it is given (and pushes the auth placeholder + bookmark like the real one), so
+// the flags, identities, salts and the sign() call are checked for every request kind in seconds.  The serialiser
+// itself is checked against the reference writer in v3_auth_wire_md5 (thorough) and by the USM/message unit tests.
+pub static mut R_MSG_ID: i64 = 0;
+pub static mut R_FLAGS: (bool, bool, bool) = (false, false, false);
+pub static mut R_ENGINE: (usize, usize) = (0, 0);
+pub static mut R_BOOTS_TIME: (i64, i64) = (0, 0);
+pub static mut R_USER: (usize, usize) = (0, 0);
+pub static mut R_AUTH_LEN: usize = 0;
+pub static mut R_AUTH_ALL_ZERO: bool = false;
+pub static mut R_PRIV: (usize, usize) = (0, 0);
+pub static mut R_DATA_ENCRYPTED: bool = false;
+pub static mut R_DATA: (usize, usize) = (0, 0);
+pub static mut R_SCOPED_ENGINE: (usize, usize) = (0, 0);
+pub static mut R_CALLS: usize = 0;
+
+pub fn stub_v3_push_ber<'a>(m: &SnmpV3Message<'a>, buf: &mut Buffer) -> crate::error::SnmpResult<()>
+where
+    'a: 'a,
+{
+    unsafe {
+        R_CALLS += 1;
+        R_MSG_ID = m.msg_id;
+        R_FLAGS = (m.flag_auth, m.flag_priv, m.flag_report);
+        R_ENGINE = (m.usm.engine_id.as_ptr() as usize, m.usm.engine_id.len());
+        R_BOOTS_TIME = (m.usm.engine_boots, m.usm.engine_time);
+        R_USER = (m.usm.user_name.as_ptr() as usize, m.usm.user_name.len());
+        R_AUTH_LEN = m.usm.auth_params.len();
+        R_AUTH_ALL_ZERO = m.usm.auth_params.iter().all(|x| *x == 0);
+        R_PRIV = (m.usm.privacy_params.as_ptr() as usize, m.usm.privacy_params.len());
+        match &m.data {
+            MsgData::Encrypted(x) => {
+                R_DATA_ENCRYPTED = true;
+                R_DATA = (x.as_ptr() as usize, x.len());
+            }
+            MsgData::Plaintext(sp) => {
+                R_DATA_ENCRYPTED = false;
+                R_SCOPED_ENGINE = (sp.engine_id.as_ptr() as usize, sp.engine_id.len());
+            }
+        }
+    }
+    // like the real serialiser: the auth placeholder goes into the buffer and is bookmarked
+    buf.push(&[0xee, 0xee])?;
+    if !m.usm.auth_params.is_empty() {
+        buf.push(m.usm.auth_params)?;
+        buf.set_bookmark(0);
+    }
+    Ok(())
+}
+
+macro_rules! v3_push_fields {
+    ($name:ident, $auth:expr, $priv:expr) => {
+        #[kani::proof]
+        #[kani::unwind(18)]
+        #[kani::stub(alloc::fmt::format, stub_format)]
+        #[kani::stub(<crate::snmp::msg::v3::SnmpV3Message<'_> as crate::ber::BerEncoder>::push_ber, stub_v3_push_ber)]
+        #[kani::stub(cipher::KeyInit::new_from_slice, super::c11::RecKey::rec_new_from_slice)]
+        #[kani::stub(cipher::InnerIvInit::inner_iv_slice_init, super::c11::RecIv::rec_inner_iv_slice_init)]
+        #[kani::stub(cipher::BlockEncryptMut::encrypt_padded_mut, super::c11::RecEnc::rec_encrypt_padded_mut)]
+        fn $name() {
+            let engine: [u8; 5] = kani::any();
+            let key: [u8; 20] = kani::any();
+            let auth_alg: u8 = $auth; // 0, or 0x80|alg (localized key)
+            let priv_alg: u8 = $priv;
+            let ks = if auth_alg & 0x3f == 1 { 16 } else { 20 };
+            let seed: u64 = kani::any();
+            let mid_draw: u64 = kani::any();
+            unsafe {
+                rand::QUEUE[0] = seed; // salt seed (only drawn when privacy is on)
+                rand::QUEUE[1] = mid_draw;
+                rand::QUEUE[2] = mid_draw;
+                rand::DRAWN = 0;
+                R_CALLS = 0;
+            }
+            let out: [[u8; 20]; 4] = kani::any();
+            reset_digests(out);
+            let mut s = SnmpV3ClientSocket::new(
+                "127.0.0.1:161".to_string(), engine.to_vec(), "ab".to_string(),
+                auth_alg, if auth_alg == 0 { &[] } else { &key[..ks] },
+                priv_alg, if priv_alg == 0 { &[] } else { &key[..ks] }, 0, 0, 0, 0,
+            ).expect("socket");
+            let drawn_before = unsafe { rand::DRAWN };
+            let refresh: bool = kani::any();
+            let pdu = if refresh {
+                SnmpPdu::GetRequest(SnmpGet { request_id: RID, vars: Vec::new() })
+            } else {
+                SnmpPdu::GetNextRequest(SnmpGet { request_id: RID, vars: vec![oid(&OID3)] })
+            };
+            let mut buf = Buffer::default();
+            let r = s.push_pdu(pdu, &mut buf);
+            assert!(r.is_ok(), "push_pdu_failed");
+            let has_auth = auth_alg != 0;
+            let has_priv = priv_alg != 0;
+            let (e_ptr, e_len) = {
+                let (e, _, _) = s.verif_engine();
+                (e.as_ptr() as usize, e.len())
+            };
+            unsafe {
+                assert!(R_CALLS == 1, "one_message_serialised");
+                let want_mid = (rand::QUEUE[drawn_before] as i64) & 0x7fff_ffff;
+                assert!(R_MSG_ID == want_mid, "msg_id_is_masked_draw");
+                assert!(R_FLAGS.0 == has_auth, "auth_flag_iff_auth_key");
+                assert!(R_FLAGS.1 == has_priv, "priv_flag_iff_priv_key");
+                assert!(R_FLAGS.2 == refresh, "reportable_flag_iff_discovery_probe");
+                assert!(R_ENGINE == (e_ptr, e_len) && e_len == 5, "usm_engine_id_is_session_engine_id");
+                assert!(R_BOOTS_TIME == (0, 0), "usm_boots_time_are_session_values");
+                assert!(R_USER.1 == 2, "usm_user_name");
+                assert!(R_AUTH_LEN == if has_auth { 12 } else { 0 } && R_AUTH_ALL_ZERO, "auth_placeholder_is_12_zero_octets_iff_auth");
+                if has_priv {
+                    assert!(R_DATA_ENCRYPTED, "msg_data_must_be_encrypted");
+                    assert!(R_PRIV.1 == 8, "privacy_parameters_are_8_octets");
+                    assert!(super::c11::REC_ENC_CALLS == 1 && R_DATA.0 == super::c11::REC_BUF_PTR && R_DATA.1 == super::c11::REC_MSG_LEN, "msg_data_is_cipher_output");
+                } else {
+                    assert!(!R_DATA_ENCRYPTED && R_PRIV.1 == 0, "plaintext_without_priv_key");
+                    assert!(R_SCOPED_ENGINE == (e_ptr, e_len), "context_engine_id_is_session_engine_id");
+                }
+                // signing: with a key the 12 placeholder octets become the outer digest prefix; without, nothing is hashed
+                let d = buf.data();
+                if has_auth {
+                    assert!(NEXT == 2 && d.len() == 14, "signed_once");
+                    let mut i = 0;
+                    while i < 12 {
+                        assert!(d[i] == out[1][i], "mac_written_over_placeholder");
+                        i += 1;
+                    }
+                    assert!(d[12] == 0xee && d[13] == 0xee, "sign_touches_only_the_mac_field");
+                } else {
+                    assert!(NEXT == 0 && d.len() == 2, "nothing_signed_without_auth_key");
+                }
+            }
+            kani::cover!(refresh, "discovery probe");
+            kani::cover!(!refresh, "getnext");
+            core::mem::forget(s);
+            core::mem::forget(buf);
+        }
+    };
+}
+//@ C09,C03,C13,C14 thorough timeout=5400 optional | v3 push_pdu decisions (serialiser cut S11), noAuthNoPriv: flags clear, empty auth/priv params, plaintext, no signing and NO PANIC; msgID = masked draw; USM + context engine id = session's
+v3_push_fields!(v3_fields_noauth, 0u8, 0u8);
+//@ C09,C03,C13,C14 thorough timeout=5400 optional | v3 push_pdu decisions, MD5 auth (localized key), no privacy: auth flag, 12 zero placeholder octets replaced by the MAC, plaintext
+v3_push_fields!(v3_fields_md5, 0x81u8, 0u8);
+//@ C09,C03,C13,C14 thorough timeout=5400 optional | v3 push_pdu decisions, SHA-1 auth + DES: auth+priv flags, msgData = cipher output, 8-octet salt as msgPrivacyParameters, for a GetNext AND for the discovery probe (refresh)
+v3_push_fields!(v3_fields_sha1_des, 0x82u8, 0x81u8);
+//@ C09,C03,C13,C14 thorough timeout=5400 optional | v3 push_pdu decisions, MD5 auth + AES-128
+v3_push_fields!(v3_fields_md5_aes, 0x81u8, 0x82u8);
